@@ -262,6 +262,37 @@ MUTANTS = [
      "            self.__dict__['profile_error'] = self.profile_error / normalization\n",
      "            if 'profile_error' in self.__dict__:\n"
      "                self.__dict__['profile_error'] = self.profile_error / normalization\n"),
+    ('C19', 'unnormalize_skips_profile_error', 'profiles/core.py',
+     "        self.__dict__['profile_error'] = (self.profile_error\n"
+     "                                          * self.normalization_value)\n"
+     "        self.normalization_value = 1.0\n",
+     "        self.normalization_value = 1.0\n"),
+    ('C19', 'normalization_value_not_accumulated', 'profiles/core.py',
+     "            self.normalization_value *= normalization\n",
+     "            self.normalization_value = normalization\n"),
+    ('C19', 'area_is_analytic_aperture_area', 'profiles/core.py',
+     "                area = aperture.area_overlap(self.data, mask=self.mask,\n"
+     "                                             method=self.method,\n"
+     "                                             subpixels=self.subpixels)\n",
+     "                area = aperture.area\n"),
+    ('C19', 'error_plain_difference', 'profiles/radial_profile.py',
+     "        return np.sqrt(np.diff(self._photometry[1] ** 2))",
+     "        return np.diff(self._photometry[1])"),
+    ('C19', 'radius_at_ee_drops_last_monotone_sample',
+     'profiles/curve_of_growth.py',
+     "            radius = radius[0:idx + 1]\n"
+     "            profile = profile[0:idx + 1]\n",
+     "            radius = radius[0:idx]\n"
+     "            profile = profile[0:idx]\n"),
+    ('C19', 'nonfinite_not_masked_when_mask_given', 'profiles/core.py',
+     "            mask |= badmask  # all masked pixels\n",
+     "            pass\n"),
+    ('C19', 'data_profile_cached_unscaled', 'profiles/radial_profile.py',
+     "        return self._data_profile[1] / self.normalization_value\n",
+     "        if '_dp' not in self.__dict__:\n"
+     "            self.__dict__['_dp'] = (self._data_profile[1]\n"
+     "                                    / self.normalization_value)\n"
+     "        return self.__dict__['_dp']\n"),
 ]
 
 
